@@ -321,6 +321,13 @@ static void run_cmd(int ntok, char **tok) {
         ev_begin("write"); ev_int("n", (long long)n); ev_int("ret", r < 0 ? (long long)r : (long long)done_); ev_int("piece", (long long)piece); ev_int("calls", calls); ev_ctx(c); ev_end();
         free(d);
     }
+    else if(!strcmp(op, "dump_header")) {
+        /* dump_header <c> <path>: the header the context holds in memory (what a ZCK_NO_WRITE run computes) */
+        int c = C(1); zckCtx *z = ctxs[c]; int o = open(A(2), O_WRONLY | O_CREAT | O_TRUNC, 0666); long long n = -1;
+        if(z && z->header && o >= 0) { n = (long long)z->header_size; ssize_t w = __real_write(o, z->header, z->header_size); (void)w; }
+        if(o >= 0) close(o);
+        ev_begin("dump_header"); ev_int("size", n); ev_end();
+    }
     else if(!strcmp(op, "wparams")) {
         /* the chunker's parameters as initialised by the first write: the average the rolling hash aims at and the limits */
         int c = C(1); zckCtx *z = ctxs[c];
